@@ -67,7 +67,8 @@ def observe_lines(v, full):
 
 
 def gen_history(rng, tier, schema, hid):
-    L = ["create %s %s" % (schema, "disk" if rng.random() < 0.1 else "mem")]
+    # `+alias` (harness only): two handle objects per track variable, calls alternate between them
+    L = ["create %s %s%s" % (schema, "disk" if rng.random() < 0.1 else "mem", " +alias" if rng.random() < 0.5 else "")]
     for k, v in enumerate(VARS):
         s = G.gen_snapshot(rng, tier, hid * 10 + k, valid_bias=1.0)
         if isinstance(s.get("sample_rate"), str) and s.get("waveform"):
